@@ -729,7 +729,7 @@ def make_machine(ctx, pair):
                 return
             t, M = self.target(data)
             L = len(M)
-            ix = data.draw(st.sampled_from([0, L, L // 2, -1, -2, L + 2, 1]))
+            ix = data.draw(st.sampled_from([0, L, L // 2, -1, -2, L + 2, 1, -L - 1, -L - 2, -2 * L]))  # a list clamps
             self.push(dict(op="insert_curve", t=t, ix=ix, m=data.draw(st.sampled_from(NAMES)),
                            d=unique1(self.fresh(), self.S.n), **self.fields(data)))
 
